@@ -2,7 +2,7 @@
 import json, os, subprocess
 from . import driver as drv
 
-NATIVE_BIN = os.path.join(drv.ROOT, 'target', 'debug', 'qe-native')
+NATIVE_BIN = os.path.join(drv.TARGET_DIR, 'debug', 'qe-native')
 
 
 def run(report, sub, extra_args=(), timeout=3600, env=None):
